@@ -63,6 +63,10 @@ func (p *FunctionBuilder) CreateFunction(m *bmodel.MethodEntry) (*gmodel.Functio
 	if m.Opts.Reverse && 0 < len(additionalArgs) {
 		return nil, logger.Errorf("%v: reverse cannot be used with additional arguments", p.fset.Position(m.Method.Pos()))
 	}
+	if m.Opts.Reverse && !util.IsPtr(src.Type()) {
+		// Under :reverse the first operand is written to: by value the function would fill a copy.
+		return nil, logger.Errorf("%v: reverse needs a pointer as the first argument", p.fset.Position(m.Method.Pos()))
+	}
 
 	if util.IsInvalidType(src.Type()) {
 		return nil, logger.Errorf("%v: src type is not defined. make sure to be imported", p.fset.Position(src.Pos()))
